@@ -31,6 +31,7 @@ func (vhDuration) ViewTimeout()            {}
 // VComm records what the replica sends.
 type VComm struct {
 	VotedBlocks []*hotstuff.Block
+	Proposed    []*hotstuff.ProposeMsg // own proposals handed to the disseminator (after the own vote)
 	NewViews    []hotstuff.SyncInfo
 	Timeouts    []hotstuff.TimeoutMsg
 }
@@ -39,7 +40,10 @@ func (c *VComm) Aggregate(p *hotstuff.ProposeMsg, _ hotstuff.PartialCert) error 
 	c.VotedBlocks = append(c.VotedBlocks, p.Block)
 	return nil
 }
-func (c *VComm) Disseminate(p *hotstuff.ProposeMsg, _ hotstuff.PartialCert) error { return nil }
+func (c *VComm) Disseminate(p *hotstuff.ProposeMsg, _ hotstuff.PartialCert) error {
+	c.Proposed = append(c.Proposed, p)
+	return nil
+}
 func (c *VComm) NewView(_ hotstuff.ID, si hotstuff.SyncInfo) error {
 	c.NewViews = append(c.NewViews, si)
 	return nil
@@ -65,6 +69,7 @@ type VReplica struct {
 	Commits []*hotstuff.Block
 	Ruleset consensus.Ruleset
 	VM      *votingmachine.VotingMachine
+	Cmds    *clientpb.CommandCache
 }
 
 // VCacheSize is the signature cache capacity of replicas built by VNewReplica (0: no cache).
@@ -96,7 +101,8 @@ func VNewReplica(n int, rule int, leader hotstuff.ID, sym bool) *VReplica {
 	committer := consensus.NewCommitter(r.El, log, w.Chain, states, r.Ruleset)
 	lr := vhLeader{leader}
 	r.Voter = consensus.NewVoter(w.Cfg, lr, r.Ruleset, r.Comm, w.Auth, committer)
-	proposer := consensus.NewProposer(r.El, w.Cfg, w.Chain, states, r.Ruleset, r.Comm, r.Voter, clientpb.NewCommandCache(1), committer)
+	r.Cmds = clientpb.NewCommandCache(1)
+	proposer := consensus.NewProposer(r.El, w.Cfg, w.Chain, states, r.Ruleset, r.Comm, r.Voter, r.Cmds, committer)
 	var tr TimeoutRuler
 	if rule == 1 {
 		tr = newAggregate(w.Cfg, w.Auth)
